@@ -546,6 +546,16 @@ func (x *Exec) applyContract(fr *Frame, st *State, site ssa.Instruction, cname s
 	rt := resultType(sig)
 	if c.MayPanic {
 		st2 := st.clone()
+		if c.PanicCond != nil {
+			// the panic outcome exists only for arguments satisfying the declared condition
+			pce := &CEnv{x: x, st: pre, old: pre, vars: env, pkg: c.Pkg, fr: fr, entryAllocW: pre.allocW}
+			t, err := pce.evalBool(c.PanicCond)
+			if err != nil {
+				x.fail("contract %s maypanic %q: %v", cname, c.PanicCond.Text, err)
+				return
+			}
+			st2.assume(t)
+		}
 		st2.unwinding = true
 		st2.panicPos = x.posOf(site.Pos())
 		st2.panicWhat = "panic in " + cname
